@@ -65,4 +65,22 @@ theorem html5_new_ne_xml (env : Env) (hxml : env.namespaces[Env.xmlNamespace]? =
   · rw [he, h1] at hs
     exact absurd (Option.some.inj hs) (by decide)
 
+/-- `xot.html5()` registers namespaces only: names and prefixes of the context are the caller's. -/
+theorem htmlCtx_names (env : Env) (p : HtmlParams) :
+    (htmlCtx env p).env.names = env.names ∧ (htmlCtx env p).env.prefixes = env.prefixes := by
+  simp [htmlCtx, Html5Elements.new]
+
+/-- The XML namespace is none of the namespaces that must be written unprefixed. -/
+theorem htmlCtx_xml_not_unprefixed (env : Env) (p : HtmlParams)
+    (hxml : env.namespaces[Env.xmlNamespace]? = some xmlNs) :
+    (htmlCtx env p).h.mustBeUnprefixed Env.xmlNamespace = false := by
+  obtain ⟨h1, h2, h3⟩ := html5_new_ne_xml env hxml
+  have e1 : (Env.xmlNamespace == (htmlCtx env p).h.xhtml) = false := by
+    simpa [htmlCtx] using fun e => h1 e.symm
+  have e2 : (Env.xmlNamespace == (htmlCtx env p).h.mathml) = false := by
+    simpa [htmlCtx] using fun e => h2 e.symm
+  have e3 : (Env.xmlNamespace == (htmlCtx env p).h.svg) = false := by
+    simpa [htmlCtx] using fun e => h3 e.symm
+  simp [Html5Elements.mustBeUnprefixed, e1, e2, e3]
+
 end XotModel
